@@ -595,7 +595,7 @@ impl Prop for Cong {
         GOAL_NAMES.to_vec()
     }
     fn rule(&self) -> String {
-        "Every multiset of operations (union of two terms / insertion of a term) of the stated depth over the stated alphabet is enumerated; each is executed on the real e-graph in every distinct ordering (thorough: and every orientation pattern; quick: unflipped and all-flipped) from the empty e-graph in a fresh thread. After each history every pair of tracked (sub)terms under every relative naming is compared with the brute-force ground congruence closure (pool size 3*max free names). states = distinct observable fingerprints (all eq answers, slot sets, symmetry counts, live classes, node count); transitions = operations applied; a history is non-trivial when its last operation changed the progress measure or node count.".into()
+        "Every multiset of operations (union of two terms / insertion of a term) of the stated depth over the stated alphabet is enumerated; each is executed on the real e-graph in every distinct ordering (thorough: and every orientation pattern; quick: unflipped and all-flipped) from the empty e-graph in a fresh thread. After each history every pair of tracked (sub)terms under every relative naming is compared with the brute-force ground congruence closure (pool size 3*max free names). states = distinct observable fingerprints (all eq answers, slot sets, symmetry counts, live classes, node count); transitions = operations applied; a history is non-trivial when its last operation changed the progress measure or node count. Two further segments run ordered sequences with their own oracles: SHADOW (binder names reused as free names; de-Bruijn forms) and CHAIN (fixed insertions, then unions among four leaves; every pair of tracked terms is the first query of its own replay, on the handles the insertions returned; union-find over the leaves).".into()
     }
     fn assumptions(&self) -> Vec<String> {
         vec![
